@@ -141,6 +141,7 @@ EXTRA = {
  "C14": "YAML and CLI field x level x bad-value matrices in child processes, incl. sub-tick distributions with profiles below zero",
  "C15": "jitter inheritance through Trace_ConfigJitter (explicit 0 kept); stage loop held past the deadline",
  "C16": "failing setup between two runs and different scenario names on one metrics instance",
+ "C17": "min*count <= sum <= max*count for any sequence of durations by Apalache (AggregateInd; mutant refuted)",
  "C18": "Stop immediately after Start; one carried tick allowed after Restart",
  "C20": "FailNow / panic inside t.Time in components",
 }
